@@ -80,6 +80,7 @@ pub fn run_case(env: &Env, ctx: &mut Ctx, idx: u64) {
     ctx.count("unwrap_checks", st.unwrap_checks);
     ctx.count("get_str_trim_checks", st.trim_checks);
     ctx.max("tree_depth", st.max_depth);
+    ctx.count("advanced_event_views", st.advanced_event_views);
     match res {
         Ok(Ok(())) => {
             ctx.nontrivial(hash_strs(&[&inp.text, if incomplete { "i" } else { "s" }]));
